@@ -81,7 +81,10 @@ class Gen:
             if k == 0:
                 d.dim_value = self.t.pick(7)
             elif k == 1:
-                d.dim_param = ["N", "batch", "seq_len", "N + 1", "floor(N/2)", "a.b"][self.t.pick(6)]
+                pool = ["N", "batch", "seq_len", "N + 1", "floor(N/2)", "a.b"]
+                if self.gen >= 4:  # spellings that are not the canonical text of their own expression
+                    pool += ["N+1", "H*2", "N//2", "batch-size", "2*N+1", "max(N,1)", "N*1", "(N)"]
+                d.dim_param = pool[self.t.pick(len(pool))]
                 self.t.features.add("dim_param")
             elif k == 2:
                 self.t.features.add("unset_dim")
